@@ -517,23 +517,24 @@ fn set_obs_for_thread(_obs: &Arc<TaskObs>) {
 
 // ------------------------------------------------------------------ C15: time cell
 
-pub fn time_value(step: (u32, u32), i: u64) -> MonotonicTime {
+pub fn time_value(base: i64, step: (u32, u32), i: u64) -> MonotonicTime {
     // Seconds and nanoseconds both change at every step, so that any mixture of two values is
     // recognisable.
-    let secs = 1_000 + i * (step.0.max(1) as u64);
+    let secs = base + (i * (step.0.max(1) as u64)) as i64;
     let nanos = (7 + i * (step.1.max(1) as u64)) % 1_000_000_000;
-    MonotonicTime::EPOCH + Duration::new(secs, nanos as u32)
+    MonotonicTime::new(secs, nanos as u32).unwrap()
 }
 
-pub fn time_index(step: (u32, u32), t: MonotonicTime, writes: u64) -> Option<u64> {
-    (0..=writes).find(|i| time_value(step, *i) == t)
+pub fn time_index(base: i64, step: (u32, u32), t: MonotonicTime, writes: u64) -> Option<u64> {
+    (0..=writes).find(|i| time_value(base, step, *i) == t)
 }
 
 fn run_time(t: &TimeCase, ctx: &Arc<ExecCtx>) {
-    let cell = Arc::new(nx::VTimeCell::new(time_value(t.step, 0)));
+    let cell = Arc::new(nx::VTimeCell::new(time_value(t.base, t.step, 0)));
     let published = Arc::new(rt::sync::AtomicU64::new(0));
     let writes = t.writes as u64;
     let step = t.step;
+    let base = t.base;
     let mut handles = Vec::new();
     for (ri, reads) in t.readers.iter().enumerate() {
         let reader = cell.reader();
@@ -546,7 +547,7 @@ fn run_time(t: &TimeCase, ctx: &Arc<ExecCtx>) {
                 let p = published.load(rt::sync::Ordering::Acquire);
                 let v = if blocking { Some(reader.read()) } else { reader.try_read() };
                 let (idx, raw) = match v {
-                    Some(t) => (time_index(step, t, writes).map(|i| i as i64).unwrap_or(-1), Some((t.as_secs(), t.subsec_nanos()))),
+                    Some(t) => (time_index(base, step, t, writes).map(|i| i as i64).unwrap_or(-1), Some((t.as_secs(), t.subsec_nanos()))),
                     None => (-2, None),
                 };
                 ctx.log(Ev::Comp(CompEv::TimeRead { reader: r, published: p, idx, raw, blocking }));
@@ -554,7 +555,7 @@ fn run_time(t: &TimeCase, ctx: &Arc<ExecCtx>) {
         }));
     }
     for i in 1..=writes {
-        cell.write(time_value(step, i));
+        cell.write(time_value(base, step, i));
         published.store(i, rt::sync::Ordering::Release);
         ctx.log(Ev::Comp(CompEv::TimeWritten { idx: i }));
     }
@@ -562,7 +563,7 @@ fn run_time(t: &TimeCase, ctx: &Arc<ExecCtx>) {
         let _ = h.join();
     }
     let last = cell.read();
-    ctx.log(Ev::Comp(CompEv::TimeFinal { idx: time_index(step, last, writes).map(|i| i as i64).unwrap_or(-1) }));
+    ctx.log(Ev::Comp(CompEv::TimeFinal { idx: time_index(base, step, last, writes).map(|i| i as i64).unwrap_or(-1) }));
 }
 
 // ------------------------------------------------------------------ C14(b): task set
